@@ -30,12 +30,18 @@ def run(cmd, **kw):
 def main():
     src, sid, pid = sys.argv[1:4]
     skip_tests = "--skip-tests" in sys.argv
+    phase = "both"
+    if "--phase" in sys.argv:
+        phase = sys.argv[sys.argv.index("--phase") + 1]
     tier = "quick"
     if "--tier" in sys.argv:
         tier = sys.argv[sys.argv.index("--tier") + 1]
     tmp = tempfile.mkdtemp(prefix="verif-seeded-")
     wt = os.path.join(tmp, "tree")
     meta = {"id": sid, "property": pid, "source": src}
+    prev = os.path.join(VERIF, "seeded", sid, "meta.json")
+    if os.path.exists(prev):
+        meta.update(json.load(open(prev)))
     try:
         run(["git", "-C", "/repo", "worktree", "add", "-q", "--detach", wt, "HEAD"], check=True)
         env = dict(os.environ, PYTHONPATH=wt, PYTHONHASHSEED="0", NUMBA_DISABLE_PERFORMANCE_WARNINGS="1")
@@ -51,7 +57,7 @@ def main():
         meta["demo_patched_exit"] = r1.returncode
         meta["demo_patched_tail"] = (r1.stdout + r1.stderr)[-500:]
         meta["files_changed"] = run(["git", "-C", wt, "diff", "--stat"]).stdout.strip().splitlines()[:-1]
-        if not skip_tests:
+        if not skip_tests and phase in ("both", "validity"):
             t0 = time.time()
             jx = os.path.join(tmp, "junit.xml")
             run([PY, "-m", "pytest", "-q", "-p", "no:cacheprovider", "--timeout=900",
@@ -65,6 +71,8 @@ def main():
             meta["baseline_stable_pass"] = len(base)
             meta["baseline_now_failing"] = sorted(base - passed)
             meta["tests_wall_s"] = round(time.time() - t0)
+        if phase == "validity":
+            return finish(meta, src, sid)
         t0 = time.time()
         cenv = dict(os.environ, VERIF_REPO=wt, VERIF_REPLAY_DIR=os.path.join(tmp, "replays"),
                     VERIF_EVIDENCE_DIR=os.path.join(tmp, "evidence"))
@@ -72,7 +80,10 @@ def main():
         rc = run([os.path.join(VERIF, "bin", "check"), pid, "--tier", tier], env=cenv, timeout=7200)
         viol = [l for l in rc.stdout.splitlines() if l.startswith("VIOLATION")]
         det = [l.strip() for l in rc.stdout.splitlines() if l.startswith("  op=")]
-        meta["check"] = {"cmd": "VERIF_REPO=<patched tree> bin/check %s --tier %s" % (pid, tier), "exit": rc.returncode,
+        meta.setdefault("check_history", [])
+        if meta.get("check"):
+            meta["check_history"].append(meta["check"])
+        meta["check"] = {"verif_commit": run(["git", "-C", VERIF, "rev-parse", "--short", "HEAD"]).stdout.strip(), "cmd": "VERIF_REPO=<patched tree> bin/check %s --tier %s" % (pid, tier), "exit": rc.returncode,
                          "violation_lines": len(viol), "first_violation": det[0][:400] if det else "",
                          "wall_s": round(time.time() - t0), "summary": rc.stdout.strip().splitlines()[-1][:300] if rc.stdout.strip() else ""}
         meta["caught"] = rc.returncode == 1 and bool(viol)
